@@ -14,6 +14,7 @@ import (
 	"sort"
 	"strings"
 	"sync"
+	"syscall"
 	"time"
 
 	"github.com/prometheus/client_golang/prometheus"
@@ -303,3 +304,49 @@ func JSONMap(b []byte) map[string]string {
 	_ = json.Unmarshal(b, &m)
 	return m
 }
+
+// ---------------- FIFO and scheduling helpers ----------------
+
+// MkFifo creates a named pipe and returns its path.
+func MkFifo(name string) string {
+	dir, err := os.MkdirTemp("", "verif-fifo")
+	if err != nil {
+		panic(err)
+	}
+	path := dir + "/" + name
+	if err := syscall.Mkfifo(path, 0o600); err != nil {
+		panic(err)
+	}
+	return path
+}
+
+// FifoWriter is the writing end of a named pipe.
+type FifoWriter struct {
+	Path string
+	f    *os.File
+}
+
+// FifoOpenWriter opens the pipe for writing (blocks until a reader has it open).
+func FifoOpenWriter(path string) *FifoWriter {
+	f, err := os.OpenFile(path, os.O_WRONLY, 0)
+	if err != nil {
+		panic(err)
+	}
+	return &FifoWriter{Path: path, f: f}
+}
+
+// Write performs one write call with exactly these bytes.
+func (w *FifoWriter) Write(b string) {
+	if len(b) == 0 {
+		return
+	}
+	if _, err := w.f.Write([]byte(b)); err != nil {
+		Note("fifo write: " + err.Error())
+	}
+	time.Sleep(2 * time.Millisecond) // keep write boundaries visible to the reader
+}
+
+func (w *FifoWriter) Close() { _ = w.f.Close() }
+
+// Quiesce returns once every other goroutine of the harness is blocked (natively: after a pause).
+func Quiesce() { time.Sleep(150 * time.Millisecond) }
